@@ -106,6 +106,12 @@ def judge(case, out, m):
             for hid in would_hit(case['app'], req):
                 w2 = spec_trace(case['app'], case.get('stop'), req, o, hid=hid)
                 if o['trace'] == w2: want = w2
+        # "handler-local fangs innermost": the handler the configuration sends the request to must be reached (when no fang answers early),
+        # otherwise its local fangs and everything about the hit are missing from the trace although the trace of a miss looks right
+        if case.get('stop') is None and req['m'] != 'OPTIONS':
+            cands = would_hit(case['app'], req)
+            if o.get('handler') not in cands:
+                v.append(('violation', f'req {req["m"]} {unhx(req["p"])!r}: handler {o.get("handler")} (status {o.get("status")}), the configuration sends the request to {cands}'))
         if o['trace'] != want:
             v.append(('violation', f'req {req["m"]} {unhx(req["p"])!r} stop={case.get("stop")}: trace {o["trace"]}, the configuration gives {want}'))
         if mm is not None and req['m'] != 'OPTIONS':          # the automatic OPTIONS handlers are modelled in C14; here OPTIONS is judged by the scope statement alone
